@@ -526,8 +526,8 @@ func LemmaFirstId(ruleId string, lines [][]byte, i int) {
 // never changes the value (conv-range obligation).
 //@ contract parseRuleId
 //@   rtc tokens "123456" "-chain" "0" "19" "256" ".ra" "x" "-"
-//@   tags C18
-//@   opt conv-range C18 C16
+//@   tags C18 C11 C12
+//@   opt conv-range C18 C16 C11 C12
 //@   results err
 //@   modifies ruleValues
 //@   ensures[C18,C16] rejects-non-matching: implies(!reMatch(regex.RuleIdFileNameRegex, idAndChainOffset), err != nil)
@@ -596,7 +596,7 @@ func SpecRoot(start string) string {
 //@   tags C08 C16 C12 C11
 //@   results r
 //@   checks[C12,C11] the-assembled-regex-is-returned-as-it-is: called(Run) && r == resultOf(Run, 0)
-//@   checks[C18,C04] the-resolved-root-is-used: called(New) && argOf(New, 0) == string(rootValues.workingDirectory) && argOf(New, 1) == string(rootValues.configurationFileName)
+//@   checks[C18,C04] the-resolved-root-is-used: ((called(context.New) && argOf(context.New, 0) == string(rootValues.workingDirectory) && argOf(context.New, 1) == string(rootValues.configurationFileName)) || (called(NewWithConfiguration) && argOf(NewWithConfiguration, 0) == string(rootValues.workingDirectory) && called(configuration.New) && argOf(configuration.New, 0) == string(rootValues.workingDirectory)+"/regex-assembly" && argOf(configuration.New, 1) == string(rootValues.configurationFileName) && argOf(NewWithConfiguration, 1) == resultOf(configuration.New, 0)))
 
 // ---- C17: no reader that may return part of its input without an error is used by the
 // line-oriented commands (the scanners are covered by the scan-complete obligations)
@@ -645,8 +645,8 @@ func OpaqueGlob(pattern string) []string { m, _ := filepath.Glob(pattern); retur
 // ---- --all walks derive id and offset from the file name with the same grammar (C18) and
 // never narrow an offset above 255 (conv-range); a too large offset aborts the walk (C16) ----
 //@ contract performUpdate#0
-//@   tags C18 C16 C08
-//@   opt conv-range C18 C16
+//@   tags C18 C16 C08 C11
+//@   opt conv-range C18 C16 C11
 //@   results r
 //@   modifies fsWrites
 //@   checks[C18,C16] large-offset-aborts: implies(called(ParseUint) && resultOf(ParseUint, 1) != nil && len(reGroup(regex.RuleIdFileNameRegex, resultOf(Name, 0), 2)) > 0, r != nil)
@@ -655,8 +655,8 @@ func OpaqueGlob(pattern string) []string { m, _ := filepath.Glob(pattern); retur
 //@   checks[C18,C11,C08] id-and-offset-from-this-file-name: implies(called(processRule), argOf(processRule, 0) == reGroup(regex.RuleIdFileNameRegex, resultOf(Name, 0), 1) && argOf(processRule, 1) == ite(len(reGroup(regex.RuleIdFileNameRegex, resultOf(Name, 0), 2)) == 0, 0, utils.OpaqueDec(reGroup(regex.RuleIdFileNameRegex, resultOf(Name, 0), 2))) && argOf(processRule, 2) == filePath)
 
 //@ contract performCompare#0
-//@   tags C18 C16 C08 C15
-//@   opt conv-range C18 C16
+//@   tags C18 C16 C08 C15 C12
+//@   opt conv-range C18 C16 C12
 //@   results r
 //@   checks[C18,C16] large-offset-aborts: implies(called(ParseUint) && resultOf(ParseUint, 1) != nil && len(reGroup(regex.RuleIdFileNameRegex, resultOf(Name, 0), 2)) > 0, r != nil)
 //@   checks[C18] same-grammar: implies(called(processRegexForCompare), reMatch(regex.RuleIdFileNameRegex, resultOf(Name, 0)))
@@ -682,11 +682,12 @@ func OpaqueGlob(pattern string) []string { m, _ := filepath.Glob(pattern); retur
 // ---- C18: generate hands the assembler exactly the bytes it read - the file's or stdin's -
 // so a file argument and the same bytes on stdin cannot give different results
 //@ contract createGenerateCommand#1
-//@   tags C18 C02
+//@   tags C18 C02 C04
 //@   checks[C18] file-bytes-reach-the-assembler-unchanged: implies(called(Run) && called(ReadFile), argOf(Run, 0) == lastRead())
 //@   checks[C18] stdin-bytes-reach-the-assembler-unchanged: implies(called(Run) && called(ReadAll), argOf(Run, 0) == resultOf(ReadAll, 0))
 //@   checks[C18] one-source: implies(called(Run), called(ReadFile) != called(ReadAll))
-//@   checks[C18] the-resolved-root-is-used: called(New) && argOf(New, 0) == string(rootValues.workingDirectory) && argOf(New, 1) == string(rootValues.configurationFileName)
+//@   checks[C18] the-resolved-file-is-read: implies(called(ReadFile), argOf(ReadFile, 0) == OpaquePathJoin2(resultOf(AssemblyDir, 0), ruleValues.fileName))
+//@   checks[C18,C04] the-resolved-root-is-used: ((called(context.New) && argOf(context.New, 0) == string(rootValues.workingDirectory) && argOf(context.New, 1) == string(rootValues.configurationFileName)) || (called(NewWithConfiguration) && argOf(NewWithConfiguration, 0) == string(rootValues.workingDirectory) && called(configuration.New) && argOf(configuration.New, 0) == string(rootValues.workingDirectory)+"/regex-assembly" && argOf(configuration.New, 1) == string(rootValues.configurationFileName) && argOf(NewWithConfiguration, 1) == resultOf(configuration.New, 0)))
 //@   checks[C02,C18] the-result-is-printed-verbatim: implies(called(Run) && resultOf(Run, 1) == nil, called(WriteString) && argOf(WriteString, 0) == resultOf(Run, 0))
 
 // ---- C16 / C09: the format command returns what processFile / processAll report (cobra turns
@@ -697,7 +698,7 @@ func OpaqueGlob(pattern string) []string { m, _ := filepath.Glob(pattern); retur
 //@   results r
 //@   modifies fsWrites
 //@   checks[C16,C09] single-file-verdict-is-returned: implies(called(processFile), r == resultOf(processFile, 0))
-//@   checks[C18] the-resolved-root-is-used: called(New) && argOf(New, 0) == string(rootValues.workingDirectory) && argOf(New, 1) == string(rootValues.configurationFileName)
+//@   checks[C18] the-resolved-root-is-used: ((called(context.New) && argOf(context.New, 0) == string(rootValues.workingDirectory) && argOf(context.New, 1) == string(rootValues.configurationFileName)) || (called(NewWithConfiguration) && argOf(NewWithConfiguration, 0) == string(rootValues.workingDirectory) && called(configuration.New) && argOf(configuration.New, 0) == string(rootValues.workingDirectory)+"/regex-assembly" && argOf(configuration.New, 1) == string(rootValues.configurationFileName) && argOf(NewWithConfiguration, 1) == resultOf(configuration.New, 0)))
 //@   checks[C18] only-a-missing-extension-is-completed: implies(called(parseRuleId), argOf(parseRuleId, 0) == iteS(resultOf(Ext, 0) == "", args[0]+".ra", args[0]))
 //@   checks[C15,C09] check-mode-is-handed-on: implies(called(processFile), argOf(processFile, 2) == checkOnly) && implies(called(processAll), argOf(processAll, 1) == checkOnly)
 //@   checks[C16,C09] all-files-verdict-is-returned: implies(called(processAll), r == resultOf(processAll, 0))
@@ -719,21 +720,21 @@ func OpaqueGlob(pattern string) []string { m, _ := filepath.Glob(pattern); retur
 //@   results r
 //@   checks[C15,C08] walks-the-assembly-directory: implies(processAll, called(WalkDir) && argOf(WalkDir, 0) == resultOf(AssemblyDir, 0))
 //@   checks[C12,C16] single-rule-verdict-is-returned: implies(!processAll, called(processRegexForCompare) && r == resultOf(processRegexForCompare, 0))
-//@   checks[C12,C18] single-rule-uses-the-parsed-values: implies(!processAll, argOf(processRegexForCompare, 0) == ruleValues.id && argOf(processRegexForCompare, 1) == ruleValues.chainOffset)
+//@   checks[C12,C18] single-rule-uses-the-parsed-values: implies(!processAll, argOf(processRegexForCompare, 0) == ruleValues.id && argOf(processRegexForCompare, 1) == ruleValues.chainOffset && argOf(runAssemble, 0) == OpaquePathJoin2(resultOf(AssemblyDir, 0), ruleValues.fileName))
 //@   checks[C12,C16] a-difference-fails-the-github-run: implies(processAll && failed && rootValues.output == gitHub, r != nil)
 
 //@ contract performUpdate
-//@   tags C11 C18 C15 C08
+//@   tags C11 C12 C18 C15 C08
 //@   opt trust-pre processRule/id-shape
 //@   modifies fsWrites
 //@   checks[C15,C08] walks-the-assembly-directory: implies(processAll, called(WalkDir) && argOf(WalkDir, 0) == resultOf(AssemblyDir, 0))
-//@   checks[C11,C18] single-rule-uses-the-parsed-values: implies(!processAll, called(processRule) && argOf(processRule, 0) == ruleValues.id && argOf(processRule, 1) == ruleValues.chainOffset)
+//@   checks[C11,C12,C18] single-rule-uses-the-parsed-values: implies(!processAll, called(processRule) && argOf(processRule, 0) == ruleValues.id && argOf(processRule, 1) == ruleValues.chainOffset && argOf(processRule, 2) == OpaquePathJoin2(resultOf(AssemblyDir, 0), ruleValues.fileName))
 
 //@ contract createCompareCommand#2
 //@   tags C12 C16 C18
 //@   safety none
 //@   results r
-//@   checks[C18] the-resolved-root-is-used: called(New) && argOf(New, 0) == string(rootValues.workingDirectory) && argOf(New, 1) == string(rootValues.configurationFileName)
+//@   checks[C18] the-resolved-root-is-used: ((called(context.New) && argOf(context.New, 0) == string(rootValues.workingDirectory) && argOf(context.New, 1) == string(rootValues.configurationFileName)) || (called(NewWithConfiguration) && argOf(NewWithConfiguration, 0) == string(rootValues.workingDirectory) && called(configuration.New) && argOf(configuration.New, 0) == string(rootValues.workingDirectory)+"/regex-assembly" && argOf(configuration.New, 1) == string(rootValues.configurationFileName) && argOf(NewWithConfiguration, 1) == resultOf(configuration.New, 0)))
 //@   checks[C12,C16] verdict-is-returned: implies(called(performCompare), r == resultOf(performCompare, 0))
 //@   checks[C12,C16] compare-was-run: implies(r == nil, called(performCompare))
 
@@ -750,7 +751,7 @@ func OpaqueGlob(pattern string) []string { m, _ := filepath.Glob(pattern); retur
 //@   safety none
 //@   results r
 //@   modifies fsWrites
-//@   checks[C18,C15] the-resolved-root-is-used: implies(called(RenumberTests) || called(parseFilePath), called(New) && argOf(New, 0) == string(rootValues.workingDirectory) && argOf(New, 1) == string(rootValues.configurationFileName))
+//@   checks[C18,C15] the-resolved-root-is-used: implies(called(RenumberTests) || called(parseFilePath), ((called(context.New) && argOf(context.New, 0) == string(rootValues.workingDirectory) && argOf(context.New, 1) == string(rootValues.configurationFileName)) || (called(NewWithConfiguration) && argOf(NewWithConfiguration, 0) == string(rootValues.workingDirectory) && called(configuration.New) && argOf(configuration.New, 0) == string(rootValues.workingDirectory)+"/regex-assembly" && argOf(configuration.New, 1) == string(rootValues.configurationFileName) && argOf(NewWithConfiguration, 1) == resultOf(configuration.New, 0))))
 //@   checks[C13,C16] all-files-verdict-is-returned: implies(called(RenumberTests), r == resultOf(RenumberTests, 0))
 //@   checks[C13,C15] check-mode-is-handed-on: implies(called(RenumberTests), argOf(RenumberTests, 0) == checkOnly && argOf(RenumberTests, 1) == (rootValues.output == gitHub)) && implies(called(RenumberTest), argOf(RenumberTest, 1) == checkOnly)
 //@   checks[C13,C16] single-file-verdict-is-returned: implies(called(RenumberTest), r == resultOf(RenumberTest, 0))
@@ -764,6 +765,7 @@ func OpaqueGlob(pattern string) []string { m, _ := filepath.Glob(pattern); retur
 //@   results r
 //@   checks[C18,C16] a-rejected-argument-fails: implies(called(parseRuleId) && resultOf(parseRuleId, 0) != nil, r != nil)
 //@   checks[C18] every-other-argument-is-parsed: implies(r == nil && !ruleValues.useStdin, called(parseRuleId))
+//@   checks[C18] the-argument-is-parsed-as-given: implies(called(parseRuleId), argOf(parseRuleId, 0) == args[0])
 
 //@ contract createUpdateCommand#1
 //@   tags C18 C16
@@ -771,6 +773,7 @@ func OpaqueGlob(pattern string) []string { m, _ := filepath.Glob(pattern); retur
 //@   results r
 //@   checks[C18,C16] a-rejected-argument-fails: implies(called(parseRuleId) && resultOf(parseRuleId, 0) != nil, r != nil)
 //@   checks[C18] a-given-argument-is-parsed: implies(len(args) > 0, called(parseRuleId))
+//@   checks[C18] the-argument-is-parsed-as-given: implies(called(parseRuleId), argOf(parseRuleId, 0) == args[0])
 
 //@ contract createCompareCommand#1
 //@   tags C18 C16
@@ -778,6 +781,7 @@ func OpaqueGlob(pattern string) []string { m, _ := filepath.Glob(pattern); retur
 //@   results r
 //@   checks[C18,C16] a-rejected-argument-fails: implies(called(parseRuleId) && resultOf(parseRuleId, 0) != nil, r != nil)
 //@   checks[C18] a-given-argument-is-parsed: implies(len(args) > 0, called(parseRuleId))
+//@   checks[C18] the-argument-is-parsed-as-given: implies(called(parseRuleId), argOf(parseRuleId, 0) == args[0])
 
 // ---- C16: the process ends with a non-zero status when the command reported an error: Execute
 // only returns normally after a successful command (a panic ends the process with status 2 in
@@ -831,7 +835,7 @@ func OpaqueIsSemver(v string) bool { _, err := semver.NewVersion(v); return err 
 //@ contract createChoreUpdateCopyrightCommand#1
 //@   tags C14 C18
 //@   modifies fsWrites
-//@   checks[C18] the-resolved-root-is-used: called(New) && argOf(New, 0) == string(rootValues.workingDirectory) && argOf(New, 1) == string(rootValues.configurationFileName)
+//@   checks[C18] the-resolved-root-is-used: ((called(context.New) && argOf(context.New, 0) == string(rootValues.workingDirectory) && argOf(context.New, 1) == string(rootValues.configurationFileName)) || (called(NewWithConfiguration) && argOf(NewWithConfiguration, 0) == string(rootValues.workingDirectory) && called(configuration.New) && argOf(configuration.New, 0) == string(rootValues.workingDirectory)+"/regex-assembly" && argOf(configuration.New, 1) == string(rootValues.configurationFileName) && argOf(NewWithConfiguration, 1) == resultOf(configuration.New, 0)))
 //@   checks[C14] the-validated-values-are-used: called(UpdateCopyright) && argOf(UpdateCopyright, 1) == copyrightVariables.Version && argOf(UpdateCopyright, 2) == copyrightVariables.Year
 
 // ---- C20: the running version handed to the updater must be comparable -------------------------
@@ -857,7 +861,7 @@ func OpaqueIsSemver(v string) bool { _, err := semver.NewVersion(v); return err 
 //@   tags C18
 //@   safety none
 //@   modifies fsWrites
-//@   checks[C18] the-resolved-root-is-used: called(New) && argOf(New, 0) == string(rootValues.workingDirectory) && argOf(New, 1) == string(rootValues.configurationFileName)
+//@   checks[C18] the-resolved-root-is-used: ((called(context.New) && argOf(context.New, 0) == string(rootValues.workingDirectory) && argOf(context.New, 1) == string(rootValues.configurationFileName)) || (called(NewWithConfiguration) && argOf(NewWithConfiguration, 0) == string(rootValues.workingDirectory) && called(configuration.New) && argOf(configuration.New, 0) == string(rootValues.workingDirectory)+"/regex-assembly" && argOf(configuration.New, 1) == string(rootValues.configurationFileName) && argOf(NewWithConfiguration, 1) == resultOf(configuration.New, 0)))
 
 // ---- C18: without -d the root is the working directory itself
 //@ contract init@root
